@@ -119,6 +119,7 @@ var menus = map[string]string{
 	"MZ":   "PC PP0 NV NVM NVB VC",
 	"MNC":  "PC PP0 NC", // + the adversary's own messages signed over a non-canonical encoding of the header
 	"ME":   "NVE",
+	"MT":   "PC NVT", // NEW_VIEW of a Byzantine leader whose embedded proposal declares another message type
 	"MB":   "PC NVB",           // NEW_VIEWs of a Byzantine leader, genuine in every signed part, with and without a substituted block body
 	"MZE":  "PC PP0 NV NVE VC", // + NEW_VIEW / vote locked on an empty-hash proof forged from proof-less VIEW_CHANGE signatures
 	"M5":   "PC PPV",           // only used to (re)generate the witness of the recorded stand-alone-PREPREPARE finding
@@ -241,6 +242,9 @@ func plan(prop, tier string) []run {
 		add("K1@v1a", "MNC", 0, mul*10*time.Second) // the adversary's own messages signed over non-canonical header encodings: exhaustive
 		add("K3b@v1", "MNC", 0, mul*10*time.Second) // the same with two Byzantine members, weighted: exhaustive
 		add("K2@v1a", "MNC", 0, mul*25*time.Second) // the same from the proposer of view 0 (PREPREPARE, votes to the correct leader of view 1): exhaustive
+		if prop == "C09" || prop == "C11" || prop == "C07" || !q {
+			add("K1@v2a", "MT", 0, mul*40*time.Second) // NEW_VIEW whose embedded proposal declares another message type, then a further view change: exhaustive (~1.5e6 states)
+		}
 		add("K1@v1a", "MB", 0, mul*25*time.Second)  // Byzantine leader of view 1 substitutes the (unsigned) block body of its NEW_VIEW: exhaustive
 		add("K3b@v4a", "ME", 0, mul*20*time.Second) // two Byzantine leaders, views up to 4: NEW_VIEW / vote locked on an empty-hash proof forged from VIEW_CHANGE signatures: exhaustive
 	}
